@@ -297,6 +297,9 @@ func RunWorker(h Harness, o WorkerOpts) (res WorkerResult) {
 		for k, n := range out.Counts {
 			st.Add(k, n)
 		}
+		if out.OpsHash != 0 {
+			out.Hash = simrt.Mix(out.Hash, out.OpsHash)
+		}
 		hashes[out.Hash] = true
 		if hl != nil {
 			vs := ""
@@ -308,7 +311,7 @@ func RunWorker(h Harness, o WorkerOpts) (res WorkerResult) {
 				continue
 			}
 		}
-		if out.PreemptsInCall > 0 || menu.Sequential {
+		if out.PreemptsInCall > 0 || out.Nontrivial {
 			nontrivial[out.Hash] = true
 		}
 		if len(res.Samples) < 3 && (i-o.From)%7 == 0 {
@@ -520,6 +523,39 @@ func switches(s []int32) int {
 		}
 	}
 	return n
+}
+
+// RunSequential executes body as the only task of a simulation: the
+// fault-free single-client configuration used by the history-only properties.
+// A panic in body is recovered at the task root and reported in the outcome.
+func RunSequential(cfg simrt.Config, body func()) *simrt.Outcome {
+	s := simrt.New(cfg)
+	s.Go(body)
+	return s.Run()
+}
+
+// HashInts folds values into a hash.
+func HashInts(h uint64, vals ...int) uint64 {
+	if h == 0 {
+		h = 1469598103934665603
+	}
+	for _, v := range vals {
+		h ^= uint64(v)
+		h *= 1099511628211
+	}
+	return h
+}
+
+// HashString folds a string into a hash.
+func HashString(h uint64, s string) uint64 {
+	if h == 0 {
+		h = 1469598103934665603
+	}
+	for i := 0; i < len(s); i++ {
+		h ^= uint64(s[i])
+		h *= 1099511628211
+	}
+	return h
 }
 
 // SortedKeys returns the keys of a map in sorted order.
